@@ -8,31 +8,92 @@ from oracles import determinism_o as D
 from props._util import rng_for
 
 LEVEL = "other"
-DEDUCTIVE = [{"module": "rnapolis.common", "sidecar": "contracts.common_all_c", "targets": ["BpSeq.all_dot_brackets"]}]
+DEDUCTIVE = [
+    {"module": "rnapolis.common", "sidecar": "contracts.common_all_c", "targets": ["BpSeq.all_dot_brackets"]},
+    # C14's own contracts: a list is pinned as a function of the SET it is made from (sets enumerate arbitrarily in the encoding)
+    {"module": "rnapolis.annotator", "sidecar": "contracts.determinism_c", "targets": ["find_pairs@order"]},
+    {"module": "rnapolis.annotator", "sidecar": "contracts.determinism_stackings_c", "targets": ["find_stackings@determined"]},
+    {"module": "rnapolis.common", "sidecar": "contracts.determinism_elems_c", "targets": ["BpSeq.elements@stops"]},
+]
 TRUSTED = ["CPython 3.12 (str hash randomisation is the only seed-dependent source modelled; PYTHONHASHSEED 0,1,2,3,random)", "sha256",
            "third parties are observed, not trusted: CBC via pulp (solver), orjson, csv, pandas to_csv, mmcif IoAdapterPy writer",
-           "deductive clause: z3 5.1.0 / cvc5 1.0.3, pyvc encoding of Python semantics; sorted(<set>, key=lambda d: d.structure): documented "
-           "contract 'a permutation of the members, non-decreasing in the key' (contracts.common_all_c._sorted_keyed); the other externals "
-           "and callee contracts of BpSeq.all_dot_brackets are those listed in props/C16.py"]
+           "deductive clauses: z3 5.1.0 / cvc5 1.0.3, pyvc encoding of Python semantics - in particular: iterating a set, list(set) and the result of "
+           "KDTree.query_pairs are ARBITRARY duplicate-free enumerations / sets; dict, defaultdict and OrderedSet iterate in insertion order",
+           "BpSeq.all_dot_brackets: sorted(<set>, key=lambda d: d.structure): documented contract 'a permutation of the members, non-decreasing in the key' "
+           "(contracts.common_all_c._sorted_keyed); the other externals and callee contracts of BpSeq.all_dot_brackets are those listed in props/C16.py",
+           "find_pairs@order: externals of contracts.annotator_pairs_c (KDTree(points) remembers the points; KDTree.query_pairs(r) = exactly the set of index pairs "
+           "i < j within r) and builtins.sorted on a set of (int, int) pairs: 'the list of exactly the members, each once, strictly increasing lexicographically' "
+           "(contracts.determinism_c.ext_sorted = contracts.annotator_pairs_c.ext_sorted plus its consequence in existential form; sorted(.., key= / reverse=) is "
+           "over-approximated by 'the members in some order'); callee contracts used on the way (Residue3D.find_atom, angle_between_vectors@total, "
+           "detect_bph_br_classification) are targets of C03 / C04 / C11",
+           "find_stackings@determined: the externals and lemmas of find_stackings under C04 (props/C04.py: KDTree / query_pairs, sorted on a list of "
+           "(Residue3D, Residue3D, str) triples = a permutation in which no later element is smaller - only the consequences on the residue order are used; numpy.dot, "
+           "numpy.linalg.norm, math.acos, math.degrees as functions of their arguments, degrees_monotone, sum_empty / sum_append; definitions "
+           "residue_order_definition, centroid_definition, base_prefix_*, vangle_definition, first_idx_definition); callee contracts Residue3D.find_atom, "
+           "Residue3D.__lt__, angle_between_vectors are targets of C04",
+           "BpSeq.elements@stops: builtins.sorted on a set of integers: 'the strictly increasing list of exactly the members' (contracts.common_elems_c._sorted_int_set "
+           "plus its consequence in existential form); callee contracts BpSeq.__stems_entries@cached (cached_property returns the same list on every access: assumed), "
+           "BpSeq.dot_bracket@text, Stem.from_bpseq_entries as under C07 (props/C07.py)"]
 ASSUMPTIONS = [
     "A-observe: byte-identity is observed on a finite set of inputs, 5 fresh interpreters each (hash seeds 0,1,2,3,random) and 2 calls per interpreter; it is not proved for other seeds, inputs, machines or thread schedules",
     "A-error: an output that consistently is the same exception text counts as deterministic (what it should be is another property's business)",
     "A-options: options exercised are model=None, find_gaps False/True, all_dot_brackets=True; the command line tool is run in-process with -a -b -c -j -p --stems-csv --inter-stem-csv",
     "A-text-order (deductive clause): the order of two structure texts is the uninterpreted relation text_le(x, y) over DotBracket objects, standing "
     "for x.structure <= y.structure (the spec language has no order on lists of characters); nothing else is assumed about it",
+    "A-function (deductive clauses): a clause that pins a value by a formula over the inputs shows that the value is a function of the inputs in so far as the symbols "
+    "of the formula are functions: third-party numeric calls (numpy.dot, numpy.linalg.norm, math.acos, math.degrees, KD-tree distances) are modelled as mathematical "
+    "functions of their arguments - run-to-run reproducibility of floating-point library code on one machine is assumed, not proved",
+    "A-total-residue-order (requires of find_stackings@determined): any two different participating residues (analysed model, at least one base atom) are ordered one "
+    "way or the other by Residue3D.__lt__, i.e. differ in (model, chain, number, insertion code).  Two residues that share all four (micro-heterogeneity written as two "
+    "residues with one number) compare neither way; sorted() is stable, so their stackings would keep the order of the KD-tree pair-set enumeration - that enumeration "
+    "is a set of int tuples, whose iteration order CPython does not derive from PYTHONHASHSEED, so nothing is observable across seeds; it is outside the clause",
+    "A-stackings-input (requires of find_stackings under C04, inherited): participating residues have pairwise different base centroids and pairwise different "
+    "(label, auth) identifiers; an existing base normal is not the zero vector",
+    "A-syntactic (argument in EXPLANATION, not an obligation): find_pairs, BpSeq.elements up to the loop-linking walk and Mapping2D3D.all_dot_brackets iterate no set other "
+    "than the ones named; this was read off the source (tools: grep for set(, {..}, defaultdict(set), query_pairs, OrderedSet), it is not checked by the verifier",
 ]
-EXPLANATION = ("One obligation family is deductive: BpSeq.all_dot_brackets (contracts.common_all_c, the contract of C16) has the clause "
-               "`ensures.ordered-by-structure-text`: for all q < r, text_le(result[q], result[r]) - the returned list is in ascending order of its "
-               "members' structure texts.  What it decides: the ORDER of the list of all dot-brackets is a function of the members' texts (the "
-               "documented contract of sorted by that key), not of set iteration order, hash seeds or object addresses; in the engine a set -> list "
-               "conversion (list(s), iteration) is an arbitrary enumeration, so `return list(solutions)` (the defect repaired by commit d44bda7), "
-               "a sort by another key (d.sequence, id(d)) or no sort cannot establish the clause.  The clause pins ONE direction (ascending, what "
-               "sorted(..) without reverse yields and what consumers / the bounded oracle observe): `reverse=True` is still deterministic but is "
-               "reported as a violation of the stated order, deliberately - a changed order is an observable change of the output.  Which texts "
-               "are members is C16's business (same contract).  Everything else of C14 stays with the bounded stand-in: bytes of JSON / CSV / PDB / "
-               "mmCIF outputs, fresh processes, hash seeds, CBC tie-breaking, the other entry points - the property quantifies over interpreter "
-               "states, which the VC generator does not model: tools/c14_worker.py computes every named output in fresh interpreters; "
-               "oracles/determinism_o.py compares their sha256 across seeds and across two in-process calls")
+EXPLANATION = ("DEDUCTIVE.  In the engine a set -> list conversion, the iteration of a set and the result of KDTree.query_pairs are arbitrary duplicate-free enumerations; dict / "
+               "OrderedSet iteration is insertion order.  A clause that pins a list completely as a function of the set it is made from is therefore proved for every "
+               "enumeration, i.e. for every hash seed, set history and object address.  Four places where a set's order could reach an output are under such a clause.  "
+               "(1) BpSeq.all_dot_brackets (contracts.common_all_c, the contract of C16), clause `ensures.ordered-by-structure-text`: for all q < r, "
+               "text_le(result[q], result[r]) - the returned list is in ascending order of its members' structure texts, the documented contract of sorted by that key; "
+               "`return list(solutions)` (the defect repaired by commit d44bda7), a sort by another key (d.sequence, id(d)) or no sort cannot establish it; `reverse=True` is "
+               "still deterministic but is reported as a violation of the stated order, deliberately - a changed order is an observable change of the output; which texts are "
+               "members is C16's business (same contract: the DFS over graph[current] and itertools.product over sets enumerate arbitrarily and membership is proved all the same).  "
+               "(2) find_pairs@order (contracts.determinism_c; prefix contract of annotator.find_pairs through the contact loop): the list the contact loop visits is the strictly "
+               "increasing lexicographic list of exactly the members of kdtree.query_pairs(4.0) - clauses `contact-loop-visits-the-index-pairs-in-strictly-increasing-order`, "
+               "`every-step-is-a-member-of-the-KD-tree-pair-set`, `every-member-of-the-KD-tree-pair-set-is-a-step`; strictly increasing + same members leaves one list.  This is "
+               "the one set iteration of find_pairs (sorted(..) there is the repair 2e35b7c); behind it the function is order-SENSITIVE (used_atoms and occupied make greedy "
+               "choices, Counter.most_common() breaks ties by first occurrence) but iterates only lists, most_common() and insertion-ordered dicts / OrderedSets "
+               "(merge_and_clean_bph_br), the sets used_atoms / occupied are only tested for membership (A-syntactic) - so base pairs, base-phosphate and base-ribose lists are "
+               "a function of the input given that clause.  Iterating the set directly, list(..) or reverse=True fail the first clause.  "
+               "(3) find_stackings@determined (contracts.determinism_stackings_c; whole function): the C04 contract with the 1e-6 band closed and the order strict - every "
+               "reported record is THE record (identifiers of lower / higher residue in the residue order, topology by the sign test of the code) of a pair of participating "
+               "residues that satisfies the geometric definition, every such pair has its record (an IFF), no pair twice, and for q < w the record q is strictly before record w "
+               "in (residue order of the lower residue, then of the higher residue): `strictly-ordered-by-chain-and-number`.  The loop runs over the UNSORTED pair set, the "
+               "clauses hold for every enumeration, and they leave exactly one list.  Dropping sorted(pairs), `>=` for `>` in the sign test or in a threshold test fail named "
+               "obligations (the latter two are invisible to C04's banded clauses).  Precondition A-total-residue-order.  "
+               "(4) BpSeq.elements@stops (contracts.determinism_elems_c; prefix contract through `stops = sorted(stopset)`): stops is the strictly increasing list of exactly "
+               "the members of the set of stem ends (`stops-strictly-increasing`, `every-stop-is-a-stem-end`, `every-stem-end-is-a-stop`); tails, hairpins and loop candidates "
+               "are produced by loops over range(len(stops)), stems by a loop over the list of runs (their order is pinned by C07's `one-Stem-per-run`).  "
+               "Existing contracts of other properties that are proved for every enumeration and thereby are seed-independent without a clause of their own here: "
+               "Mapping2D3D._generated_bpseq_data (C06: at most one partner, only canonical input pairs, unconflicted pairs kept - for ANY result of sorted(set, key=..)), "
+               "filter_clashing_atoms (C08: which atoms survive), find_clashes (C17: which pairs are listed), find_pairs@greedy (C03: exclusivity / maximality for any order of "
+               "most_common()).  They pin membership-like facts, NOT the order / choice, so they are not listed as C14 targets.  "
+               "NOT DEDUCTIVE, order or choice reaches the output through a set and is not pinned by any contract (all natively constant across hash seeds because the sets hold "
+               "ints / int tuples, whose hashes CPython does not randomise - the order is an implementation detail of CPython's set and of scipy's insertion sequence, not a "
+               "function of the input by any documented contract): clashfinder.find_clashes returns its list in the enumeration order of kdtree.query_pairs (clashfinder.py:76), "
+               "and the tool's report lists residue pairs in that order (dict insertion, :188 / :220); parser.filter_clashing_atoms returns `[.. for i in atoms_to_keep]`, the "
+               "iteration order of a set of ints (parser.py:476; ascending in CPython because set(range(n)) stores small ints at their own slot) - the order of ALL atoms and hence "
+               "residues of a parsed file rests on it (contracts.parser_c states it as 'arbitrary order E'); BpSeq.convert_to_dot_bracket adds the conflict constraints in the "
+               "iteration order of graph[i] (common.py:779), which may steer the MILP solver's tie-breaking; BpSeq.elements' loop-linking walk `for j in graph[i]` (common.py:619) "
+               "takes the first usable member of a set that has at most one member (argument not under contract); Mapping2D3D conflict resolution removes `sorted(pairs, "
+               "key=pair_scoring_function)[-1]` of a SET of BasePair3D (tertiary.py:596 / :647): pairs with equal key (score, nt1, nt2) are the same residue pair with another "
+               "class, so BPSEQ is unaffected, but which of them is removed follows the iteration order of a set of hashed objects, and only the bounded `external-conflicts` check watches it (the key closure is not "
+               "modelled by contracts.mapping_c).  Mapping2D3D.all_dot_brackets / extended_dot_bracket / strands_sequences iterate lists only (A-syntactic) and are not under contract.  "
+               "Everything else of C14 stays with the bounded stand-in: bytes of JSON / CSV / PDB / mmCIF outputs, fresh processes, hash seeds, CBC tie-breaking, the other "
+               "entry points - the property quantifies over interpreter states, which the VC generator does not model: tools/c14_worker.py computes every named output in fresh "
+               "interpreters; oracles/determinism_o.py compares their sha256 across seeds and across two in-process calls")
 
 MAX_PER_KIND = 2
 
